@@ -73,7 +73,11 @@ func payloadOf(tag string) []byte {
 // dress gives the requests A and P (the parsed fixture) a signing agent and
 // extended attributes, one of them critical; B has neither - so that whatever
 // survives from an earlier signature shows.
-func dress(req *signature.SignRequest, tag string) {
+func dress(req *signature.SignRequest, tag string, mt string) {
+	if tag == "B" && mt == sims.JWS {
+		// JWS takes any string as content type; this one has no slash
+		req.Payload.ContentType = "release-manifest+json"
+	}
 	if tag == "A" || tag == "P" {
 		req.SigningAgent = "agent/" + tag + "\twith a tab\n"
 		req.ExtendedSignedAttributes = []signature.Attribute{{Key: "io.c20.crit." + tag, Critical: true, Value: "c"}, {Key: "io.c20.plain", Value: tag}}
@@ -81,6 +85,9 @@ func dress(req *signature.SignRequest, tag string) {
 }
 
 func dressWant(w *envcmp.Want, tag string) *envcmp.Want {
+	if tag == "B" && w.MT == sims.JWS {
+		w.ContentType = "release-manifest+json"
+	}
 	if tag == "A" || tag == "P" {
 		w.Agent = "agent/" + tag + "\twith a tab\n"
 		w.Attrs = []signature.Attribute{{Key: "io.c20.crit." + tag, Critical: true, Value: "c"}, {Key: "io.c20.plain", Value: tag}}
@@ -98,7 +105,7 @@ func setup() *fixtures {
 		signer, _ := sims.NewLocal(f.chain)
 		req := sims.BaseRequest(mt, signer, signature.SigningSchemeX509)
 		req.Payload.Content = payloadOf("P")
-		dress(req, "P")
+		dress(req, "P", mt)
 		env, _ := signature.NewEnvelope(mt)
 		raw, err := env.Sign(req)
 		if err != nil {
@@ -197,6 +204,8 @@ func execute(r *core.Run, c *Case) {
 	fail := func(i int, sig, what string) {
 		r.Violation(sig+":"+mtName(mt), fmt.Sprintf("%s -- at op %d (%s): %s", c.desc(), i, opNames[c.Ops[i]], what), c)
 	}
+	var shared signature.SignRequest
+	shareReq := (len(c.Ops)+len(c.Start))%2 == 0
 	mkReq := func(tag string, st time.Time, payload []byte) (*signature.SignRequest, *sims.RemoteSigner) {
 		var signer signature.Signer
 		var rs *sims.RemoteSigner
@@ -209,7 +218,12 @@ func execute(r *core.Run, c *Case) {
 		req := sims.BaseRequest(mt, signer, signature.SigningSchemeX509)
 		req.Payload.Content = payload
 		req.SigningTime = st
-		dress(req, tag)
+		dress(req, tag, mt)
+		if shareReq {
+			// one SignRequest object, refilled for every signing of this history
+			shared = *req
+			return &shared, rs
+		}
 		return req, rs
 	}
 	for i, op := range c.Ops {
